@@ -545,11 +545,12 @@ Definition op_ok (o : op) : Prop :=
   | OFetchFile n | OExists n =>
       is_absolute n = false /\ forall p, spec_norm n = Some p -> In p U
   | OStoreChunk k co _ mime _ =>
-      simple_comp k = true /\ In (spec_chunk_rel (flat c) k co) U /\
-      exempt mime = ex (spec_chunk_rel (flat c) k co)
+      k <> [] /\ is_absolute k = false /\
+      forall p, spec_chunk_name (flat c) k co = Some p -> In p U /\ exempt mime = ex p
   | OFetchChunk k co =>
-      simple_comp k = true /\ In (spec_chunk_rel (flat c) k co) U /\
-      In (spec_chunk_rel (negb (flat c)) k co) X
+      k <> [] /\ is_absolute k = false /\
+      forall kp, spec_key k = Some kp ->
+        In (kp ++ spec_chunk_tail (flat c) co) U /\ In (kp ++ spec_chunk_tail (negb (flat c)) co) X
   end.
 
 Lemma root_kind_rel0 : forall s, is_absolute s = false -> root_kind s = 0%nat.
@@ -561,8 +562,10 @@ Qed.
 Lemma checked_path_rel : forall s, is_absolute s = false ->
   checked_path (base c) s = option_map (app (base c)) (spec_norm s).
 Proof.
-  intros s H. unfold checked_path, spec_norm. rewrite (root_kind_rel0 s H), H.
-  unfold parse_parts. destruct (existsb is_dotdot (filter keep_comp (split_slash s))); reflexivity.
+  intros s H. unfold checked_path, checked_path_gen, spec_norm, rel_ok.
+  rewrite (root_kind_rel0 s H), H. unfold parse_parts.
+  destruct (existsb is_dotdot (filter keep_comp (split_slash s))); [reflexivity|].
+  destruct (filter keep_comp (split_slash s)); reflexivity.
 Qed.
 
 Lemma op_refines : forall t m o, Inv t m -> op_ok o ->
@@ -600,19 +603,25 @@ Proof.
         rewrite (is_file_gz t m p HI Hne Hcl Hfr), (in_U_existsb p Hin), Eg. reflexivity.
     + exists t. split; [reflexivity | exact HI].
   - (* store_chunk *)
-    destruct Hok as [Hk [Hin Hex]]. unfold fa_store_chunk.
-    rewrite (chunk_path_spec c (flat c) k co Hk). apply store_refines; assumption.
+    destruct Hok as [Hk [Ha Hn]]. unfold fa_store_chunk.
+    rewrite (chunk_path_spec c (flat c) k co Hk Ha).
+    destruct (spec_chunk_name (flat c) k co) as [p|] eqn:Es; simpl option_map.
+    + destruct (Hn p eq_refl) as [Hin Hex]. apply store_refines; assumption.
+    + exists t. split; [reflexivity | exact HI].
   - (* fetch_chunk *)
-    destruct Hok as [Hk [Hin Hoth]]. unfold fa_fetch_chunk.
-    rewrite (chunk_path_spec c true k co Hk), (chunk_path_spec c false k co Hk).
-    exists t. split; [|exact HI]. simpl fst.
-    destruct (flat c) eqn:Ef; simpl negb in Hoth.
-    + rewrite (probe_name _ t m _ None _ _ HI Hin).
-      rewrite (probe_other _ t m _ _ _ _ HI Hoth).
-      exact (fetch_after t m _ HI Hin).
-    + rewrite (probe_other _ t m _ None _ _ HI Hoth).
-      rewrite (probe_name _ t m _ None _ _ HI Hin).
-      exact (fetch_after t m _ HI Hin).
+    destruct Hok as [Hk [Ha Hn]]. unfold fa_fetch_chunk.
+    rewrite (chunk_path_spec c true k co Hk Ha), (chunk_path_spec c false k co Hk Ha).
+    unfold spec_chunk_name. destruct (spec_key k) as [kp|] eqn:Es; simpl option_map.
+    + destruct (Hn kp eq_refl) as [Hin Hoth].
+      exists t. split; [|exact HI]. simpl fst.
+      destruct (flat c) eqn:Ef; simpl negb in Hoth.
+      * rewrite (probe_name _ t m _ None _ _ HI Hin).
+        rewrite (probe_other _ t m _ _ _ _ HI Hoth).
+        exact (fetch_after t m _ HI Hin).
+      * rewrite (probe_other _ t m _ None _ _ HI Hoth).
+        rewrite (probe_name _ t m _ None _ _ HI Hin).
+        exact (fetch_after t m _ HI Hin).
+    + exists t. split; [reflexivity | exact HI].
 Qed.
 
 (* ---------- every sequence ---------- *)
